@@ -8,6 +8,7 @@ from vlib import cgen, ref
 from vlib.harness import SubCheck, is_open, must, require
 
 PROPERTY_ID = "C18"
+TECHNIQUE = 'property-based testing (Hypothesis) against a numpy reference up to global phase; own sequential model of rule application; probe for open finding K1'
 RULE = (
     "Circuits (n<=4, <=6 ops) mixing plain U3 on any qubit, controlled-U3 with 1..2 controls on any "
     "ordered qubit tuple, and unrelated gates (built-ins except RZ/RY, wrappers, custom); rule lists "
